@@ -179,7 +179,12 @@ NAME_POOL_T = ['CUSTOM_TR_A', 'CUSTOM_TR_B', 'CUSTOM_TR_C', 'CUSTOM_PRE_A']
 NAME_POOL_C = ['CUSTOM_RC_A', 'CUSTOM_RC_B', 'CUSTOM_RC_C', 'CUSTOM_PRE_RC']
 BAD_NAMES = ['CUSTOM_lower', 'NOPREFIX', 'CUSTOM_', 'CUSTOM_A B',
              'CUSTOM_A-B', 'custom_A', 'CUSTOM_' + 'A' * 249,
-             'CUSTOM_%C3%84', 'CUSTOM_A%0A', 'HW_CPU_X86_AVX', 'VCPU']
+             'CUSTOM_%C3%84', 'CUSTOM_A%0A', 'HW_CPU_X86_AVX', 'VCPU',
+             # characters that mean something to whatever parses the name
+             # on its way in: JSON escapes, quotes, backslashes
+             'CUSTOM_%5Cu0041', 'CUSTOM_%5Cn', 'CUSTOM_A%5C%5C',
+             'CUSTOM_A%22%2C%22name%22%3A%22CUSTOM_Z',
+             'CUSTOM_' + 'A' * 244 + '%5Cu0041%5Cu0041']
 LONG_OK = 'CUSTOM_' + 'Z' * 248      # exactly 255 characters
 
 
@@ -251,6 +256,9 @@ def names_history(world, seed, params):
                 rng.random() < 0.2:
             race = True
         m, path, ver, body = step
+        if body and '%' in body.get('name', ''):
+            from urllib.parse import unquote
+            body = {'name': unquote(body['name'])}
         sim.match_faults = [{'verb': 'INSERT', 'table': 'resource_classes',
                              'kind': 'dupkey-id', 'nth': 1}] if race else []
         if race:
@@ -273,6 +281,9 @@ def names_history(world, seed, params):
         name = path.rsplit('/', 1)[1] if path.count('/') > 1 else (
             body or {}).get('name', '')
         name = name.replace('%0A', '\n')
+        if '%' in name:
+            from urllib.parse import unquote
+            name = unquote(name)
         is_trait = path.startswith('/traits')
         before_names = set(nat['trait_names'] if is_trait else nat['classes'])
         after_names = set(nat2['trait_names'] if is_trait
